@@ -900,6 +900,19 @@ impl<'b> InnerBucket<'b> {
                             let mut sibling = sibling.borrow_mut();
                             // Copy this node's data over to it's sibling
                             sibling.data.merge(&mut node.data);
+                            if index == 0 {
+                                // The data went to the right sibling, so that sibling now starts
+                                // with a smaller key than the one the parent holds for it. The
+                                // parent's key is only refreshed when the sibling is spilled, but
+                                // the tree is searched before that (to store the new metadata of
+                                // nested buckets), and a search follows the parent's keys. Update
+                                // the parent's key now, and the key the sibling is looked up by.
+                                let first_key = sibling.data.first_key();
+                                if let NodeData::Branches(branches) = &mut parent.data {
+                                    branches[index + 1].set_key(first_key.clone());
+                                }
+                                sibling.original_key = Some(first_key);
+                            }
                             if !node.children.is_empty() {
                                 // Move all children nodes over to that sibling too
                                 for child in node.children.iter() {
